@@ -861,6 +861,7 @@ func genHistory(r *rng, cfg genCfg, o openOpts) []string {
 		}
 	}
 	bktName := func() string { return fmt.Sprintf("b%d", r.intn(6)) }
+	mvN := 0
 	for t := 0; t < cfg.txs; t++ {
 		// reader events between transactions
 		if cfg.readers {
@@ -957,6 +958,30 @@ func genHistory(r *rng, cfg genCfg, o openOpts) []string {
 				parent := p[:len(p)-1]
 				L = append(L, fmt.Sprintf("x w delb %s %s", pathStr(parent), hex.EncodeToString([]byte(p[len(p)-1]))))
 				delete(work.at(parent).kids, p[len(p)-1])
+			case k < 88 && cfg.moves && r.chance(1, 3): // move between buckets created in this very transaction (root page id 0 on both sides)
+				mvN++
+				pn, cn := fmt.Sprintf("mv%d", mvN), fmt.Sprintf("c%d", r.intn(3))
+				L = append(L, fmt.Sprintf("x w create - %s", hex.EncodeToString([]byte(pn))),
+					fmt.Sprintf("x w create %s %s", pathStr([]string{pn}), hex.EncodeToString([]byte(cn))))
+				work.kids[pn] = newSh()
+				work.kids[pn].kids[cn] = newSh()
+				if r.chance(1, 2) {
+					L = append(L, fmt.Sprintf("x w put %s 6b31 %s", pathStr([]string{pn, cn}), valTok()))
+					work.kids[pn].kids[cn].kids["k1"] = &shNode{val: true}
+				}
+				dst := p
+				if r.chance(1, 2) {
+					mvN++
+					dn := fmt.Sprintf("mv%d", mvN)
+					L = append(L, fmt.Sprintf("x w create - %s", hex.EncodeToString([]byte(dn))))
+					work.kids[dn] = newSh()
+					dst = []string{dn}
+				}
+				L = append(L, fmt.Sprintf("x w move %s %s %s", pathStr([]string{pn}), hex.EncodeToString([]byte(cn)), pathStr(dst)))
+				if dn := work.at(dst); dn != nil && dn.kids[cn] == nil {
+					dn.kids[cn] = work.kids[pn].kids[cn]
+					delete(work.kids[pn].kids, cn)
+				}
 			case k < 90 && cfg.moves: // move bucket p into another bucket (never into itself / own subtree)
 				dst := []string{}
 				if r.chance(2, 3) {
